@@ -117,7 +117,13 @@ def timers(ctx):
             dk = litset(disj(dv)) if dv is not None else set()
             ob2.instance("executer.start", sorted(dk))
             if dk != {key(start), key(c)}:
-                ob2.refute("sequencer-restart", "executer.start is %s, expected start | (count != 0)" % sorted(dk), ex[0].loc)
+                # another shape: some trigger input of the executer must still depend on the remaining-count register, otherwise only ONE sequence runs per request
+                trig = [l_ for l_ in s.leaves if l_.kind == "assign" and l_.inst == "" and key(l_.target).startswith(str(ex[0]) + ".") and isinstance(l_.value, V)]
+                if any(key(c) in support(expand_term(s, l_.value)) for l_ in trig):
+                    ob2.unknown("the executer is re-triggered by %s: not the `start | (count != 0)` form this rule understands" % [str(l_)[:80] for l_ in trig])
+                else:
+                    ob2.refute("sequencer-restart", "executer.start is %s and no trigger of the executer depends on the remaining-sequence counter %s: only one refresh sequence "
+                               "runs per request although the postponer asks once per `postponing` intervals" % (sorted(dk), key(c)), ex[0].loc)
             dd = s.single_comb_def(s.top.attrs["done"])
             dk2 = litset(conj(dd)) if dd is not None else set()
             if dk2 != {key(ex[0].attrs["done"]), "~" + key(c)}:
